@@ -114,8 +114,12 @@ pub fn apply(o: &mut Object, op: &J, salt: usize) -> J {
 				let k = o.entries()[i].key.clone();
 				let occ = o.entries()[..i].iter().filter(|e| e.key == k).count();
 				let newv = val(&op["v"]);
-				let old = match salt % 3 {
-					0 => {
+				let unique = o.entries().iter().filter(|e| e.key == k).count() == 1;
+				let old = match salt % 5 {
+					// through the accessors that hand out a mutable reference to the first / only value of a key
+					3 if occ == 0 => std::mem::replace(o.get_mut_or_insert_with(k.as_str(), || Value::Null), newv),
+					4 if unique => std::mem::replace(o.get_unique_mut(k.as_str()).ok().flatten().unwrap(), newv),
+					0 | 3 => {
 						let (_, v) = o.iter_mut().nth(i).unwrap();
 						std::mem::replace(v, newv)
 					}
@@ -157,7 +161,18 @@ pub fn apply(o: &mut Object, op: &J, salt: usize) -> J {
 			// Clone::clone_from into an object that already holds other entries (op.es), directly and through
 			// the containers whose clone_from reuses their elements
 			let junk = Object::from_vec(build_entries(&op["es"]));
-			let c = match salt % 4 {
+			// every other time the target holds the SAME keys as the source in another order and with other values (a
+			// clone_from that reuses the target's structure must still end up equal to the source)
+			let junk = if salt % 2 == 1 && o.len() >= 2 {
+				let mut es: Vec<Entry> = o.entries().iter().rev().map(|e| Entry::new(e.key.clone(), Value::Number(7u8.into()))).collect();
+				if salt % 4 == 3 {
+					es.rotate_left(1);
+				}
+				Object::from_vec(es)
+			} else {
+				junk
+			};
+			let c = match (salt / 2) % 4 {
 				0 => {
 					let mut t = junk;
 					t.clone_from(o);
